@@ -351,6 +351,32 @@ pub fn run(g: &mut Global) {
         },
         &check,
     );
+    // windows that are flat up to a relative spread 2^-e for every e = 10..=52, entered at every ring phase
+    // (prefix lengths 0..=n, prefix in the same price unit): a relative threshold of any size inside a
+    // "constant window" shortcut that consults one particular buffer slot decides differently for the same window
+    let seedr = g.seed;
+    g.exhaustive(
+        "relative_spread_windows",
+        12 * 3 * 43 * 10 * 4,
+        &move |i| {
+            let rep = i % 4;
+            let r = i / 4;
+            let ph = (r % 10) as usize;
+            let r = r / 10;
+            let e = 10 + (r % 43) as i32;
+            let r = r / 43;
+            let n = [3usize, 5, 9][(r % 3) as usize];
+            let kind = KINDS[(r / 3) as usize];
+            let w = kind.memory(n).unwrap();
+            let mut st = seedr ^ (i + 41).wrapping_mul(0x9E3779B97F4A7C15);
+            let level = [100.0, 250.0, 0.0375, 81920.0][rep as usize];
+            let d = 2f64.powi(-e);
+            let prefix: Vec<RawBar> = (0..ph.min(n + 1)).map(|_| RawBar::flat(level * (0.99 + 0.04 * unit(&mut st)), 10.0)).collect();
+            let suffix: Vec<RawBar> = (0..w + (rep as usize % 2)).map(|_| RawBar::flat(level * (1.0 + d * ((splitmix(&mut st) % 9) as f64 - 4.0)), 10.0)).collect();
+            Case { cfg: cfg_small(kind, n), scalar: i % 3 != 0, prefix, suffix, gen_prefix: None }
+        },
+        &check,
+    );
     // forgetting after a very long life: more than 2^16 (all O(1)-per-step kinds) and 2^24 (a few) inputs
     // before the common suffix
     let seed = g.seed;
